@@ -31,6 +31,7 @@ ObsInit == [ seen  |-> << >>,   \* <<r, mid>> -> summary of the request datagram
              invkey |-> << >>,  \* handler invocation -> key of the request it serves
              pend  |-> {},      \* submitted client requests still waiting for their response
              csent |-> {},      \* <<r, mid, dig>> of the confirmable responses transmitted so far
+             cpend |-> {},      \* <<r, mid>> of the confirmable responses the peer has neither acknowledged nor reset yet
              win   |-> NoWin,   \* the datagram whose synchronous processing is under way
              bad   |-> {} ]
 
@@ -75,7 +76,7 @@ ObsRx(o0, e) ==
       ELSE [o EXCEPT !.win = W("rstit", 0)]
   ELSE IF e.cls = "resp" /\ e.ty \in {"NON", "ACK"} THEN
       [o EXCEPT !.win = W("silent", 0), !.pend = @ \ {e.q}]
-  ELSE IF e.cls = "empty" /\ e.ty \in {"ACK", "RST"} THEN [o EXCEPT !.win = W("silent", 0)]
+  ELSE IF e.cls = "empty" /\ e.ty \in {"ACK", "RST"} THEN [o EXCEPT !.win = W("silent", 0), !.cpend = @ \ {key}]
   ELSE IF (e.cls = "req" /\ e.ty \in {"ACK", "RST"}) \/ (e.cls = "resp" /\ e.ty = "RST")
           \/ (e.cls = "empty" /\ e.ty = "NON")
       THEN [o EXCEPT !.win = W("ignored", 0)]
@@ -162,13 +163,18 @@ ObsTxResp(o, e) ==
                                   e.ty = "RST", "C10_ResponseType")
               o3 == FlagIf(o2, s.nresp >= 1, "C10_OneResponse")
           IN [o3 EXCEPT !.csent = IF e.ty = "CON" THEN @ \cup {<<e.r, e.mid, e.dig>>} ELSE @,
+                        !.cpend = IF e.ty = "CON" THEN @ \cup {<<e.r, e.mid>>} ELSE @,
                         !.seen[key] = [s EXCEPT !.nresp = @ + 1, !.rmid = e.mid, !.rdig = e.dig,
                                                !.ack = IF e.ty = "ACK" THEN e.dig ELSE @,
                                                !.nack = IF e.ty = "ACK" THEN @ + 1 ELSE @]]
 
 ObsTx(o0, e) ==
   LET o == FlagIf(o0, e.ty = "CON" /\ e.loc = "m", "C10_NeverConToMulticast") IN
-  IF o.win.kind \in {"dupcon", "dupnon", "ping", "ackit", "rstit", "silent", "ignored"} THEN ObsTxWindow(o, e)
+  IF o.win.kind \in {"dupcon", "dupnon", "ping", "ackit", "rstit", "silent", "ignored"}
+    THEN \* a separate response released from the backlog while an ACK / Reset is being processed is a response
+         \* like any other (it is no answer to the datagram being processed)
+         IF o.win.kind \in {"silent", "ackit"} /\ e.cls = "resp" /\ e.ty \in {"CON", "NON"}
+           THEN ObsTxResp(o, e) ELSE ObsTxWindow(o, e)
   ELSE IF e.ty = "ACK" /\ e.cls = "empty" THEN ObsTxEmptyAck(o, e)
   ELSE IF e.cls = "resp" THEN ObsTxResp(o, e)
   ELSE IF e.ty = "ACK" THEN Flag(o, "C10_AckWithOddCode")
@@ -192,8 +198,16 @@ ObsRelease(o, e) ==
 ObsSubmit(o, e) == [o EXCEPT !.pend = @ \cup {e.q}]
 ObsDone(o, e) == [o EXCEPT !.pend = @ \ {e.q}]
 
+\* "... otherwise by an empty ACK followed by a separate response": what the handler returned is sent, unless
+\* No-Response suppresses it or the peer overrode the request by re-using its token.  Judged only when no peer
+\* left a confirmable response unanswered (what is queued behind a given-up exchange is dropped: C14's subject).
+Owed(o, k) == LET s == o.seen[k] IN
+  /\ s.out = "ret" /\ s.nresp = 0 /\ ~s.amb /\ ~Suppressed(s.nr, 69)
+  /\ Has(o.bytok, <<k[1], s.tok>>) /\ o.bytok[<<k[1], s.tok>>] = k
+
 EndBad(o) ==
-  {c \in {"C04_NewIsProcessed", "C10_ConAcked", "C10_NonNeverAcked"} :
+  {c \in {"C04_NewIsProcessed", "C10_ConAcked", "C10_NonNeverAcked", "C10_SeparateAfterEmptyAck"} :
+     \/ c = "C10_SeparateAfterEmptyAck" /\ o.cpend = {} /\ \E k \in DOMAIN o.seen : Owed(o, k)
      \/ c = "C04_NewIsProcessed" /\ \E k \in DOMAIN o.seen : o.seen[k].h # 0 /\ o.seen[k].calls = 0 /\ ~o.seen[k].amb
      \/ c = "C10_ConAcked" /\ \E k \in DOMAIN o.seen : o.seen[k].ty = "CON" /\ o.seen[k].nack # 1 /\ ~o.seen[k].amb
      \/ c = "C10_NonNeverAcked" /\ \E k \in DOMAIN o.seen : o.seen[k].ty = "NON" /\ o.seen[k].nack # 0 }
